@@ -1,6 +1,7 @@
 """C16 - dumping is deterministic and stable (nondeterminism-source clauses)."""
 import sys
 
+from sa import rules_registry as RREG
 from sa import crosslist as XL
 from sa import rules_r6b as R6B
 from sa import report, rules_repr as RR2, rules_state as RS, rules_opts as RO
@@ -34,6 +35,8 @@ def run(ctx, repo):
     ctx.call(R6B.r_option_immutable, repo, ['emitter.Emitter', 'serializer.Serializer', 'representer.BaseRepresenter'])
     ctx.call(R6B.r_mapping_store_only, repo)
     XL.mapping_rules(ctx, repo)
+    ctx.call(R6B.r_tag_handles_sorted, repo)
+    ctx.call(RREG.r_cow, repo, only=['yaml_implicit_resolvers'])
 
 
 if __name__ == '__main__':
